@@ -25,7 +25,9 @@ def gen(rng, tier):
 
 def oracle_ok(case, impl, oracle):
     if oracle == "-":
-        return False
+        # no model/oracle column at all (the executable model could not be built: reported separately as a broken
+        # obligation, "no-failing-input-found"); not a verdict about this input
+        return True
     # The property is about DNS names, which are case-insensitive: the verdict compares names
     # case-insensitively.  (The oracle column spells names as c06_lookup_exact proves the code does, and
     # the model column is compared with the implementation exactly, so a change of letter case is still
